@@ -110,7 +110,38 @@ pub fn ite_i64(c: bool, a: i64, b: i64) -> i64 {
 /// Turns on schedule exploration under mirsym: threads spawned afterwards are interleaved at their
 /// synchronisation operations with at most `preemption_bound` preemptions (no effect natively).
 #[inline(never)]
-pub fn threads(_preemption_bound: u32) {}
+pub fn threads(_preemption_bound: u32) {
+    START_ARRIVED.store(0, std::sync::atomic::Ordering::SeqCst);
+}
+
+static START_ARRIVED: std::sync::atomic::AtomicU32 = std::sync::atomic::AtomicU32::new(0);
+
+/// First statement of a racing thread: natively the `n` threads of a scenario leave this line together (spin
+/// barrier, given up after 20 ms) and, in a stress replay (VERIF_DELAY_SEED), after a pseudo-random offset of up
+/// to a few microseconds, so that short race windows are hit. No effect under mirsym, which explores the
+/// interleavings itself.
+#[inline(never)]
+pub fn start_line(n: u32) {
+    use std::sync::atomic::Ordering;
+    let me = START_ARRIVED.fetch_add(1, Ordering::SeqCst);
+    let t0 = std::time::Instant::now();
+    while START_ARRIVED.load(Ordering::SeqCst) < n {
+        std::hint::spin_loop();
+        if t0.elapsed().as_millis() > 20 {
+            break;
+        }
+    }
+    if let Ok(seed) = std::env::var("VERIF_DELAY_SEED") {
+        let mut x = seed.parse::<u64>().unwrap_or(1).wrapping_add((me as u64 + 1).wrapping_mul(0x9E37_79B9_7F4A_7C15));
+        x ^= x >> 12;
+        x ^= x << 25;
+        x ^= x >> 27;
+        let spins = (x.wrapping_mul(0x2545_F491_4F6C_DD1D) >> 33) % 3000;
+        for _ in 0..spins {
+            std::hint::spin_loop();
+        }
+    }
+}
 
 /// Between `unordered(true)` and `unordered(false)` the harness only uses the results of the calls it makes as
 /// sets, so mirsym need not explore the iteration orders of hash containers there (no effect natively).
